@@ -8,6 +8,9 @@ pub mod c05;
 pub mod c06;
 pub mod c07;
 pub mod c08;
+pub mod c09;
+pub mod c09t;
+pub mod taskx;
 pub mod c16;
 pub mod exec;
 pub mod explore;
